@@ -318,6 +318,11 @@ func (c *Trait) NotifyDeleted(ctx context.Context, key []byte) {
 
 // NotifyExpiredAll collects logs and metrics.
 func (c *Trait) NotifyExpiredAll(ctx context.Context, start time.Time, cnt int) {
+	// Expired entries have to be collected by delete expired job, even with UnlimitedTTL.
+	if cnt > 0 {
+		atomic.AddInt64(&c.expirationsSet, 1)
+	}
+
 	if c.Log.logImportant != nil {
 		c.Log.logImportant(ctx, "expired all entries in cache",
 			"name", c.Config.Name,
